@@ -88,6 +88,27 @@ func Nat(g *G, nprog, per int) []Program {
 	var out []Program
 	for p := 0; p < nprog; p++ {
 		thr := thresholdSets[p%len(thresholdSets)]
+		// every code path once per threshold assignment, whatever the seed draws afterwards (K, BS, KS = thr)
+		K, BS, KS := thr[0], thr[1], thr[2]
+		for _, mn := range [][2]int{{5, 1}, {K + 3, 2}, {2 * K, 2 * K}, {2*K + 1, 2*K + 1}, {4*K + 3, 2 * K}} {
+			if mn[1] >= 2 && mn[1] < K || mn[1] == 1 || mn[1] >= K {
+				g.Emit(M{"op": "N.mul", "x": g.words(mn[0]), "y": g.words(mn[1]), "zlen": g.Pick(0, 5, 400), "zalias": ""})
+			}
+		}
+		for _, n := range []int{1, BS - 1, BS, KS - 1, 2 * KS, 2*KS + 1} {
+			if n >= 1 {
+				g.Emit(M{"op": "N.sqr", "x": g.words(n), "zlen": g.Pick(0, 5, 400), "zalias": ""})
+			}
+		}
+		{
+			v1, v3, vr := g.words(1), g.words(3), g.words(101)
+			q := g.words(4)
+			g.Emit(M{"op": "N.div", "u": g.words(2), "v": v3, "zlen": 0, "zalias": ""})                                                  // small
+			g.Emit(M{"op": "N.div", "u": g.words(6), "v": v1, "zlen": 5, "zalias": ""})                                                  // divW
+			g.Emit(M{"op": "N.div", "u": g.words(8), "v": v3, "zlen": 0, "zalias": ""})                                                  // divBasic, remainder
+			g.Emit(M{"op": "N.div", "u": bigToWords(new(big.Int).Mul(wordsToBig(q), wordsToBig(v3))), "v": v3, "zlen": 0, "zalias": ""}) // exact
+			g.Emit(M{"op": "N.div", "u": g.words(130), "v": vr, "zlen": 0, "zalias": ""})                                                // divRecursive
+		}
 		for i := 0; i < per; i++ {
 			switch k := g.R.Intn(100); {
 			case k < 30:
